@@ -106,6 +106,31 @@ def check_programs(seed, n):
                         violations.append({"property": "C04", "stream": "labels", "sig": "data-cell", "case": case,
                                            "what": "memory[{}] = {} after the data statements, expected {}".format(a, got, v)})
                         break
+                # the same through the entry points that users reach: the interpreter's run (cut after one instruction) and
+                # the debugger's start-up and restart
+                import hera.debugger as DBG
+                entry = []
+                with proto.Capture() as cap:
+                    try:
+                        vmr = V.VirtualMachine(progrun.make_settings(big_stack=big, throttle=1))
+                        vmr.run(prog)
+                        if not prog.code or prog.code[0].name != "STORE":
+                            entry.append(("hera (run)", vmr))
+                        dbg = DBG.Debugger(prog, progrun.make_settings(mode="debug", big_stack=big))
+                        entry.append(("hera debug (start-up)", dbg.vm))
+                        dbg.reset()
+                        entry.append(("hera debug (restart)", dbg.vm))
+                    except BaseException as e:  # noqa
+                        entry = []
+                    cap.take()
+                for how, m in entry:
+                    bad = next(((a, v, m.memory[a] if a < len(m.memory) else 0) for a, v in cells.items()
+                                if (m.memory[a] if a < len(m.memory) else 0) != v), None)
+                    if bad:
+                        violations.append({"property": "C04", "stream": "labels", "sig": "data-cell-entry", "case": case,
+                                           "what": "{}: memory[{}] = {} after the data segment was laid out, the program puts {} there "
+                                                   "(where its data labels point)".format(how, bad[0], bad[2], bad[1])})
+                        break
         # the modes agree: run = debug, assemble = preprocess
         if "" in per_mode and "debug" in per_mode and per_mode[""] != per_mode["debug"]:
             violations.append({"property": "C04", "stream": "labels", "sig": "modes", "case": {"text": text},
@@ -244,6 +269,22 @@ def replay_case(stream, case):
     for name, a in addr.items():
         if tab.get(name) != a or not isinstance(tab.get(name), D.DataLabel):
             return "data label {} = {} but the next data cell is at {}".format(name, tab.get(name), a)
+    if mode == "":
+        import hera.vm as V
+        import hera.debugger as DBG
+        with proto.Capture() as cap:
+            try:
+                vmr = V.VirtualMachine(progrun.make_settings(big_stack=big, throttle=1))
+                vmr.run(prog)
+                dbg = DBG.Debugger(prog, progrun.make_settings(mode="debug", big_stack=big))
+                ms = ([vmr] if not prog.code or prog.code[0].name != "STORE" else []) + [dbg.vm]
+            except BaseException:  # noqa
+                ms = []
+            cap.take()
+        for m in ms:
+            for a0, v in cells.items():
+                if (m.memory[a0] if a0 < len(m.memory) else 0) != v:
+                    return "memory[{}] after the data segment was laid out differs from what the program puts there".format(a0)
     line, src = res
     a = proto.run_herad(["sigenv " + src])[0]
     real = " ".join([str(len(tab))] + ["{} {}".format(chk.w_key(x), chk.w_symval(y)) for x, y in tab.items()])
